@@ -335,7 +335,7 @@ from bounded import decoders as BD    # noqa
 from bounded import codes as BC    # noqa
 
 
-def native_valid(dname, cname, size, defo, kw, rnd, nsyn=6, direction=(1 / 3, 1 / 3, 1 / 3), used_first=False):
+def native_valid(dname, cname, size, defo, kw, rnd, nsyn=6, direction=(1 / 3, 1 / 3, 1 / 3), used_first=False, p=0.1):
     """run-time contract of C05 on real objects (used_first: the code object was used undeformed - cached data computed - and then deformed in place)"""
     try:
         if used_first and defo:
@@ -347,7 +347,7 @@ def native_valid(dname, cname, size, defo, kw, rnd, nsyn=6, direction=(1 / 3, 1 
             code.deform(defo, **(kw or {}))
         else:
             code = BC.make(cname, size, defo, kw)
-        dec, em = BD.build(dname, code, direction=direction)
+        dec, em = BD.build(dname, code, direction=direction, p=p)
     except Exception as e:      # noqa
         return 'decoder cannot be constructed on a code it declares support for: %s: %s' % (type(e).__name__, str(e)[:120]), None
     n = code.n
@@ -421,7 +421,10 @@ def replay(r):
 
 def replay_file(data):
     inp = data.get('input') or {}
-    why, syn = native_valid(inp['decoder'], inp['code'], tuple(inp['size']), inp.get('deformation'), {}, random.Random(0), 12)
+    extra = {}
+    if inp.get('direction') is not None:
+        extra = dict(direction=tuple(inp['direction']), p=inp.get('error_rate', 0.1))
+    why, syn = native_valid(inp['decoder'], inp['code'], tuple(inp['size']), inp.get('deformation'), {}, random.Random(0), 12, used_first='history' in inp, **extra)
     return dict(confirmed=bool(why), detail=why or 'holds', input=inp)
 
 
@@ -443,6 +446,14 @@ def bounded(tier, seed):
             ev += 1; nt.add((d, cname, size, defo, 'used-then-deformed'))
             if why:
                 viol.append(dict(obligation='C05.bounded[%s]' % d, input=dict(decoder=d, code=cname, size=list(size), deformation=defo, syndrome=syn, history='used, then deformed in place'), detail=why))
+    # the decoder's configured noise is only a prior: the syndrome of ANY Pauli error must be reproduced also under boundary priors (infinite bias, rate 0 / 1)
+    for d, cname, size in (('MatchingDecoder', 'Toric2DCode', (3, 3)), ('MatchingDecoder', 'Planar2DCode', (3, 2)), ('BeliefPropagationOSDDecoder', 'Toric2DCode', (3, 3)),
+                           ('BeliefPropagationOSDDecoder', 'Planar2DCode', (3, 3)), ('BeliefPropagationOSDDecoder', 'Color666PlanarCode', (2, 2)), ('UnionFindDecoder', 'Toric2DCode', (3, 3))):
+        for direction, rate in (((0, 0, 1), 0.1), ((1, 0, 0), 0.1), ((0, 1, 0), 0.1), ((1 / 3, 1 / 3, 1 / 3), 0.0), ((0.5, 0, 0.5), 1.0)):
+            why, syn = native_valid(d, cname, size, None, {}, rnd, 6 if tier == 'quick' else 30, direction=direction, p=rate)
+            ev += 1; nt.add((d, cname, size, direction, rate))
+            if why:
+                viol.append(dict(obligation='C05.bounded.prior[%s]' % d, input=dict(decoder=d, code=cname, size=list(size), deformation=None, direction=list(direction), error_rate=rate, syndrome=syn), detail=why))
     for cname, size in (('Toric2DCode', (3, 3)), ('Planar2DCode', (3, 2)), ('RotatedPlanar2DCode', (3, 3))):
         why = native_matching_weights(cname, size, rnd); ev += 1
         if why:
@@ -453,6 +464,6 @@ def bounded(tier, seed):
         key = (v['obligation'], known_match(PROPERTY, v['obligation'], v['input']) is not None)
         if key not in seen:
             seen.add(key); out.append(v)
-    return dict(bound='every decoder x its allowed codes at 2-9 (code,size,deformation) cases x syndromes of random Pauli errors at 3 rates + zero syndrome; PyMatching edge weights read back',
+    return dict(bound='complete decoders also under boundary priors (pure X / Y / Z noise, rate 0 and 1); every decoder x its allowed codes at 2-9 (code,size,deformation) cases x syndromes of random Pauli errors at 3 rates + zero syndrome; PyMatching edge weights read back',
                 evaluations=ev, distinct_nontrivial=len(nt), rule='construct, decode, check shape/binary/no raise; complete decoders: syndrome reproduced and trivial->trivial',
                 samples=samples, violations=out)
